@@ -261,6 +261,111 @@ fn mutate(r: &mut Rng, a: &mut LeafAssign) -> &'static str {
     }
 }
 
+
+/// Isolated single-component deviations: exactly ONE component (one limb of one binding, one conjunct of the dummy
+/// decision, one scalar) is wrong and every OTHER constraint of the circuit is satisfied (everything downstream is
+/// re-derived).  Random multi-limb tampering does not test a binding limb by limb: a digest that is wrong in all four
+/// limbs is still caught by a binding that lost one limb, and a root_hash deviation is caught by either of the two
+/// constraints it takes part in.  Enumerated, not sampled.
+fn isolated(a0: &LeafAssign, r: &mut Rng) -> Vec<(String, LeafAssign)> {
+    let mut v: Vec<(String, LeafAssign)> = Vec::new();
+    let bump = |x: u64, k: u64| ((x as u128 + k as u128) % P as u128) as u64;
+    let depth = a0.depth.min(MAX_DEPTH as u64) as usize;
+    let rehash_tail = |a: &mut LeafAssign| {
+        // roots and block hash follow the (possibly changed) leaf
+        let root = a.fold_root(depth);
+        a.root_hash = root;
+        a.tree_root = root;
+        a.block_hash = h(&a.header_preimage());
+    };
+    for i in 0..4 {
+        // 1. public nullifier limb i differs from H(H(salt, secret, count))
+        let mut a = a0.clone();
+        a.nullifier[i] = bump(a.nullifier[i], 1);
+        v.push((format!("iso:nullifier-limb{}", i), a));
+        // 2. nullifier's secret limb i differs from the address secret; nullifier re-derived from its own secret
+        let mut a = a0.clone();
+        a.null_secret[i] = bump(a.null_secret[i], 1);
+        a.nullifier = LeafAssign::nullifier_of(&a.null_secret, &a.null_tc);
+        v.push((format!("iso:secret-wiring-limb{}", i), a));
+        // 4. leaf.to_account limb i differs from the derived address; path, roots and block hash follow the leaf
+        let mut a = a0.clone();
+        a.to_account[i] = bump(a.to_account[i], 1);
+        rehash_tail(&mut a);
+        v.push((format!("iso:to-account-wiring-limb{}", i), a));
+        // 5. address limb i differs from H(H(salt, secret)); the leaf carries the same (wrong) address
+        let mut a = a0.clone();
+        a.unsp_account[i] = bump(a.unsp_account[i], 1);
+        a.to_account = a.unsp_account;
+        rehash_tail(&mut a);
+        v.push((format!("iso:address-derivation-limb{}", i), a));
+        // 6. claimed root limb i differs from the folded path; the header commits to the claimed root
+        let mut a = a0.clone();
+        a.root_hash[i] = bump(a.root_hash[i], 1);
+        a.tree_root = a.root_hash;
+        a.block_hash = h(&a.header_preimage());
+        v.push((format!("iso:merkle-root-limb{}", i), a));
+        // 7. header's tree root limb i differs from the proven root; block hash commits to that header
+        let mut a = a0.clone();
+        a.tree_root[i] = bump(a.tree_root[i], 1);
+        a.block_hash = h(&a.header_preimage());
+        v.push((format!("iso:header-root-limb{}", i), a));
+        // 8. block hash limb i differs from the header hash
+        let mut a = a0.clone();
+        a.block_hash[i] = bump(a.block_hash[i], 1);
+        v.push((format!("iso:block-hash-limb{}", i), a));
+        // 9a. exactly one non-zero block-hash limb, zero outputs, forged nullifier: NOT a dummy
+        let mut a = a0.clone();
+        a.block_hash = [0; 4];
+        a.block_hash[i] = 1 + r.below(5);
+        a.out1 = 0;
+        a.out2 = 0;
+        a.nullifier = rand_digest(r);
+        v.push((format!("iso:dummy-decision-only-bh-limb{}-nonzero", i), a));
+    }
+    for i in 0..2 {
+        // 3. nullifier's transfer-count limb i differs from the leaf's; nullifier re-derived from its own count
+        let mut a = a0.clone();
+        a.null_tc[i] = (a.null_tc[i] + 1) & 0xFFFF_FFFF;
+        a.nullifier = LeafAssign::nullifier_of(&a.null_secret, &a.null_tc);
+        v.push((format!("iso:transfer-count-wiring-limb{}", i), a));
+        // 9b. zero block hash, exactly one non-zero output, forged nullifier: NOT a dummy
+        let mut a = a0.clone();
+        a.block_hash = [0; 4];
+        a.out1 = if i == 0 { 1 + r.below(3) } else { 0 };
+        a.out2 = if i == 1 { 1 + r.below(3) } else { 0 };
+        a.nullifier = rand_digest(r);
+        v.push((format!("iso:dummy-decision-only-out{}-nonzero", i + 1), a));
+    }
+    // 10. one scalar just outside its range (2^32, and 2^32 + small), everything re-derived around it
+    for k in [0u64, 7] {
+        for which in 0..7 {
+            let mut a = a0.clone();
+            let big = (1u64 << 32) + k;
+            let name = match which {
+                0 => { a.asset = big; "asset" }
+                1 => { a.input_amount = big; a.out1 = 0; a.out2 = 1; "input" }
+                2 => { a.out1 = big; "out1" }
+                3 => { a.out2 = big; "out2" }
+                4 => { a.block_number = big; "block-number" }
+                5 => { a.leaf_tc[0] = big; "tc-hi" }
+                _ => { a.leaf_tc[1] = big; "tc-lo" }
+            };
+            a.rederive();
+            v.push((format!("iso:scalar-{}-is-2^32+{}", name, k), a));
+        }
+    }
+    // 11. depth just above the maximum with an otherwise valid 16-level path (aliases of depth 16)
+    if depth == MAX_DEPTH {
+        for d in [MAX_DEPTH as u64 + 1, MAX_DEPTH as u64 + 2, 31] {
+            let mut a = a0.clone();
+            a.depth = d;
+            v.push((format!("iso:depth-{}-on-a-full-path", d), a));
+        }
+    }
+    v
+}
+
 /// widths of the split_le calls of the leaf circuit, in builder order
 fn split_widths() -> Vec<usize> {
     let mut w = vec![32; 7];
@@ -321,6 +426,16 @@ fn main() {
                 }
                 proved += 1;
             }
+        }
+    }
+
+    // isolated single-component deviations at depths 0, 1, a middle depth and the maximum
+    let iso_depths: Vec<usize> = if thorough { (0..=MAX_DEPTH).collect() } else { vec![0, 1, 2 + rng.below(13) as usize, MAX_DEPTH] };
+    for depth in iso_depths {
+        let a0 = LeafAssign::honest(&mut rng, depth);
+        for (tag, a) in isolated(&a0, &mut rng) {
+            let o = ev.run(a.to_pw(&targets), &mut no_tweak());
+            out.case(101, &tag, &a.segs(), &o.enc());
         }
     }
 
